@@ -228,7 +228,7 @@ def encode_ordered(v):
 # ----------------------------------------------------------------------------- metafiles
 
 def ref_metafile(name, files, pl, version, single=False, trailing_pad=False,
-                 with_length=False, extra=None, info_extra=None, block=BLOCK):
+                 with_length=False, extra=None, info_extra=None, block=BLOCK, attrs=None):
     """Reference encoder: files = list of (path components tuple, bytes) in the order the
     v1 list shall have (callers pass them sorted as BEP 52 requires for hybrids).
     version 1 | 2 | 3. Returns the metafile as a python dict (use encode())."""
@@ -243,6 +243,8 @@ def ref_metafile(name, files, pl, version, single=False, trailing_pad=False,
             stream = b""
             for idx, (comps, data) in enumerate(files):
                 entries.append({"length": len(data), "path": list(comps)})
+                if attrs and attrs.get(comps):
+                    entries[-1]["attr"] = attrs[comps]      # BEP 47: x executable, h hidden, l link
                 stream += data
                 g = gap(pl, len(data))
                 last = idx == len(files) - 1
